@@ -199,13 +199,14 @@ func (db *DB) rawset(entry types.Entry) {
 		mt.freeze()
 		imt := mt
 
-		db.flushC <- imt
-
 		// readers and the flush goroutine access memtable and immutables with db.mu held
 		db.mu.Lock()
 		db.immutables.PushBack(imt)
 		db.memtable = mt.reset()
 		db.mu.Unlock()
+
+		// the flush goroutine removes imt from immutables, so it must be listed before it is queued
+		db.flushC <- imt
 	}
 }
 
@@ -230,8 +231,14 @@ LOOP:
 			db.flushImmutable(imt)
 			db.manager.checkAndCompact()
 
+			// remove the flushed memtable, which is not the newest one if others were queued meanwhile
 			db.mu.Lock()
-			db.immutables.Remove(db.immutables.Back())
+			for e := db.immutables.Front(); e != nil; e = e.Next() {
+				if e.Value.(*memtable) == imt {
+					db.immutables.Remove(e)
+					break
+				}
+			}
 			db.mu.Unlock()
 
 			if closed && len(db.flushC) == 0 {
